@@ -33,7 +33,7 @@ ASSUMPTIONS = ["CPython 3.12 import system is the reference", "names x, y, _p st
                "__all__ is built only from list literals, +, += and star-unpacking of other modules' __all__"]
 MANIFEST = {
     "category": "exploration",
-    "text": "Bounded exhaustive enumeration of three-module packages (ordered statement selections incl. every import / wildcard / __all__ form) written to disk, imported by CPython and loaded statically with alias resolution; visible names and the defining object of every name must coincide, resolved aliases must proxy their targets, exports must equal __all__. Further families: upward imports, a sub-package, and __all__ lists assembled at three places of one package under every shape of the parent package's own list.",
+    "text": "Bounded exhaustive enumeration of three-module packages (ordered statement selections incl. every import / wildcard / __all__ form) written to disk, imported by CPython and loaded statically with alias resolution; visible names and the defining object of every name must coincide, resolved aliases must proxy their targets, exports must equal __all__. Further families: upward imports, a sub-package, and __all__ lists assembled at three places of one package under every shape of the parent package's own list. The __init__ menu includes the same wildcard import written twice around a re-binding of one of its names, and __all__ assembled from two modules with an augmented assignment.",
     "note": "CPython is the oracle on every importable package; the residual rejection rate is reported in the evidence.",
     "technique": "model checking by exhaustive small-scope enumeration of packages on the real loader, CPython import as oracle",
 }
